@@ -128,6 +128,10 @@ pure pkey(e Int) Bytes = "p" ++ fbe(e)
 // ring position d ticks back from position i in a ring of n slots (= (i - d + n) % n for 0 <= d < n, 0 <= i < n)
 pure rpos(i Int, d Int, n Int) Int = i >= d ? i - d : i - d + n
 pure slot(s Store, d Int) Bytes = slotkey(rpos(id(s), d, N(s)))
+// the counters are initialised by deployment and stay well-formed (every history): at least one slot, the ring position inside
+// the ring, a non-negative epoch. The documented bounds (count <= 255, epochs below 2^32) remain input assumptions.
+invariant InvCounters [C08] = store.has("snapshotCount") && store.has("snapshotCurrent") && store.has("snapshotEpoch")
+        && 1 <= N(store) && 0 <= id(store) && id(store) < N(store) && 0 <= C(store)
 // no per-epoch node list outside the window of the last N epochs
 pred NoStale(s Store) = forall e Int, x Bytes {s.opt(pkey(e) ++ x)} :: 1 <= e && e < 4294967296 && (e <= C(s) - N(s) || e > C(s)) ==> !s.has(pkey(e) ++ x)
 
@@ -165,7 +169,7 @@ func getSnapshot(ctx, key) (r)
 
 func Snapshot(diff) (r)
   pure
-  requires 1 <= N(store) && N(store) <= 255 && 0 <= id(store) && id(store) < N(store)
+  requires N(store) <= 255
   cover [C08] diff == N(store) - 1
   cover [C08] diff == 0
   ensures [C08] 0 <= diff && diff < N(store)
@@ -174,7 +178,7 @@ func Snapshot(diff) (r)
 
 func SnapshotByEpoch(epoch) (r)
   pure
-  requires 1 <= N(store) && N(store) <= 255 && 0 <= id(store) && id(store) < N(store)
+  requires N(store) <= 255
   cover [C08] epoch == C(store)
   cover [C08] epoch == C(store) - N(store) + 1
   ensures [C08] C(store) - N(store) < epoch && epoch <= C(store)
@@ -183,7 +187,7 @@ func SnapshotByEpoch(epoch) (r)
 
 func Netmap() (r)
   pure
-  requires 1 <= N(store) && N(store) <= 255 && 0 <= id(store) && id(store) < N(store)
+  requires N(store) <= 255
   ensures [C08] store.has(slot(store, 0)) ==> r == deser_L_Node(store.get(slot(store, 0)))
   ensures [C08] !store.has(slot(store, 0)) ==> len(r) == 0
 
@@ -198,10 +202,13 @@ func ListNodes() (r)
   ensures [C08] r.prefix == pkey(C(store)) && r.opts == 12 && r.pos == 0 && r.store == old(store)
   ensures [C08] store == old(store) && notifs == old(notifs)
 
+// (the tick itself is under contract in module tick; here only its input bound for the invariant sweep)
+func NewEpoch(epochNum)
+  inputs
+  requires epochNum < 4294967296
+
 func UpdateSnapshotCount(count)
-  requires store.has("snapshotCount") && store.has("snapshotCurrent") && store.has("snapshotEpoch")
-  requires 1 <= N(store) && N(store) <= 255 && 0 <= id(store) && id(store) < N(store) && count <= 255
-  requires 0 <= C(store) && C(store) < 4294967296
+  requires N(store) <= 255 && count <= 255 && C(store) < 4294967296
   requires NoStale(store)
   cover [C08] W(alphabet()) && count > N(store) && count == 255
   cover [C08] W(alphabet()) && count == 1 && N(store) == 10 && id(store) == 5
